@@ -410,14 +410,18 @@ def fakeIndex {φ : Type} (P : FakeParsed φ) (idx : Int) : Except Err (φ × Na
 
 /-- `SheppLoganDataset.__getitem__(idx)`: the slice `sample_image` renders (`… [idx % self.nz]`), the position of the
 seed used (`self.seed[idx]`, Python list indexing — the only thing that rejects an index), and the reported
-`slice_no` (`idx` itself, as given). -/
-def sheppIndex (nz : Nat) (idx : Int) : Except Err (Nat × Nat × Int) :=
+`slice_no`: `idx % self.nz` on the current tree, `idx` itself as given (`asGiven`) on the pinned tree. -/
+def sheppIndexWith (asGiven : Bool) (nz : Nat) (idx : Int) : Except Err (Nat × Nat × Int) :=
   match pyIndex (List.range nz) idx with
   | .error e => .error e
-  | .ok k => .ok ((Int.fmod idx nz).toNat, k, idx)
+  | .ok k => .ok ((Int.fmod idx nz).toNat, k, if asGiven then idx else Int.fmod idx nz)
 
-/-- whether the reported `slice_no` is the index as given (current tree) or the rendered slice -/
-def sheppReportsIndexAsGiven : Bool := true
+/-- whether the reported `slice_no` is the index as given (pinned tree) or the rendered slice `idx % nz` (current tree) -/
+def sheppReportsIndexAsGiven : Bool := false
+
+def sheppIndex (nz : Nat) (idx : Int) : Except Err (Nat × Nat × Int) := sheppIndexWith sheppReportsIndexAsGiven nz idx
+/-- the pinned tree: `"slice_no": idx` -/
+def sheppIndexPinned (nz : Nat) (idx : Int) : Except Err (Nat × Nat × Int) := sheppIndexWith true nz idx
 
 /-! ## Seeded synthetic items: explicit RNG streams
 
